@@ -64,6 +64,28 @@ CLAIMED = {
              "surfaces such as x*y == 1 are explored in the thorough tier only) and uses 6 representative "
              "routes for the undefined-child instances. Trusted: ast, interpreter, domain table.",
         ref="4/C07"),
+    "C05": dict(
+        technique=ABSINT + " + canonical-form algebra; result read back through structural fields",
+        text="as_expression() of Partial, Derivative and Differential components (forward and reverse symbolic "
+             "builders, early and late, followed by the library's normalisation) is interpreted abstractly; the "
+             "returned expression object is read back field by field and must be well-formed, mention no new "
+             "variable, be defined on every sign region where the original is, and have the canonical form of "
+             "the specification derivative. The well-formedness clause gives the second-order statement by "
+             "induction (C03-C05 apply to the result).",
+        note="Inherits the known finding F3 (even root of even power), printed as KNOWN-FINDING. Depth-2 "
+             "compositions; real-arithmetic identity only. Trusted: ast, interpreter, algebra, calculus table.",
+        ref="4/C05"),
+    "C06": dict(
+        technique=ABSINT + " with all routes cross-checked + CFG dominance",
+        text="All 14 numeric routes are interpreted on every class/composition/undefined-child instance and "
+             "region and must all raise DomainError or all return the same real function; early/late "
+             "as_expression() results and Differential(e).component(v) == Partial(e, v), Differential(e).at(p) == "
+             "LocatedDifferential(e, p) are decided with the library's own == (interpreted); a CFG rule shows "
+             "every evaluation of a stored symbolic partial is dominated by evaluating the original at the same "
+             "point.",
+        note="Known findings F3 and F5 (early Differential stores reverse-builder expressions) are listed in "
+             "known_findings.json. 'Same number up to rounding' is decided as 'same real function'.",
+        ref="4/C06"),
 }
 
 NOT_APPLICABLE = {
